@@ -2,6 +2,7 @@ package main
 
 import (
 	"encoding/hex"
+	"errors"
 	"mime"
 	"net/http"
 	"net/http/httptest"
@@ -10,9 +11,50 @@ import (
 	"strconv"
 	"strings"
 
+	"rivaas.dev/app"
+	riverrors "rivaas.dev/errors"
 	"rivaas.dev/router"
 	"verif/harness/hx"
 )
+
+// appFailFormatter is an application-defined error formatter: it answers with one extra header (several values)
+// and its own content type — the header part of app.Context.Fail is what the AppFail operation observes.
+type appFailFormatter struct {
+	key, ct string
+	vals    []string
+}
+
+func (f appFailFormatter) Format(_ *http.Request, err error) riverrors.Response {
+	return riverrors.Response{Status: http.StatusTeapot, ContentType: f.ct, Body: map[string]string{"error": err.Error()},
+		Headers: http.Header{f.key: append([]string(nil), f.vals...)}}
+}
+
+// runAppFail serves one request on an app whose handler fails; the response headers as sent.
+func runAppFail(a []string) (h http.Header, panicked bool) {
+	ap, err := app.New(app.WithServiceName("c19"), app.WithServiceVersion("1.0.0"),
+		app.WithErrorFormatter(appFailFormatter{key: a[0], ct: a[1], vals: a[2:]}))
+	if err != nil {
+		panic(err)
+	}
+	ap.GET("/fail", func(c *app.Context) {
+		defer func() {
+			if p := recover(); p != nil {
+				panicked = true
+			}
+		}()
+		c.Fail(errors.New("boom"))
+	})
+	rec := httptest.NewRecorder()
+	func() {
+		defer func() {
+			if p := recover(); p != nil {
+				panicked = true
+			}
+		}()
+		ap.Router().ServeHTTP(rec, httptest.NewRequest(http.MethodGet, "/fail", nil))
+	}()
+	return rec.Header(), panicked
+}
 
 type hdrOp struct {
 	Op   string
@@ -138,7 +180,21 @@ func genHdrOp(r *hx.Rand) hdrOp {
 	}
 }
 
+// genAppFail: the script is ONE failing request on an app with an application-defined error formatter that
+// returns a header with 1..3 values (request-derived text in any of them) and a content type.
+func genAppFail(r *hx.Rand) *hdrCase {
+	keys := []string{"X-Custom", "WWW-Authenticate", "Link", "x-custom", "X-Request-Id", "Retry-After"}
+	a := []string{hx.Pick(r, keys), hx.Pick(r, []string{"application/problem+json", "", "application/x\r\ny", "application/vnd.api+json"})}
+	for i, n := 0, r.Range(1, 3); i < n; i++ {
+		a = append(a, genHVal(r))
+	}
+	return &hdrCase{Ops: []hdrOp{{Op: "AppFail", A: hexs(a...)}}}
+}
+
 func genHdr(r *hx.Rand) *hdrCase {
+	if r.Chance(1, 12) {
+		return genAppFail(r)
+	}
 	k := &hdrCase{Path: hx.Pick(r, hdrPaths), Diag: r.Chance(1, 3)}
 	n := r.Range(1, 5)
 	for i := 0; i < n; i++ {
@@ -193,6 +249,8 @@ func hdrShip(o hdrOp) (ship []string, keys []string) {
 		keys = []string{"Set-Cookie", readBackKey}
 	case "Data":
 		keys = []string{"Content-Type"}
+	case "AppFail":
+		keys = []string{canon(a[0]), "Content-Type"}
 	case "Reader":
 		keys = []string{"Content-Type", canon(a[1])}
 	}
@@ -261,18 +319,26 @@ func emitHdr(id string, k *hdrCase, st *hx.Stats) string {
 		vals [][]string
 	}
 	obs := make([]obsT, len(k.Ops))
-	serveAt(k.Path, k.Diag, func(c *router.Context) {
-		for i, o := range k.Ops {
-			obs[i].p = doHdrOp(c, o)
-			for _, key := range allKeys[i] {
-				if key == readBackKey {
-					obs[i].vals = append(obs[i].vals, cookieReadBack(c.Response.Header()["Set-Cookie"], o.args()[0]))
-					continue
-				}
-				obs[i].vals = append(obs[i].vals, append([]string(nil), c.Response.Header()[key]...))
-			}
+	if len(k.Ops) == 1 && k.Ops[0].Op == "AppFail" {
+		h, p := runAppFail(k.Ops[0].args())
+		obs[0].p = p
+		for _, key := range allKeys[0] {
+			obs[0].vals = append(obs[0].vals, append([]string(nil), h[key]...))
 		}
-	})
+	} else {
+		serveAt(k.Path, k.Diag, func(c *router.Context) {
+			for i, o := range k.Ops {
+				obs[i].p = doHdrOp(c, o)
+				for _, key := range allKeys[i] {
+					if key == readBackKey {
+						obs[i].vals = append(obs[i].vals, cookieReadBack(c.Response.Header()["Set-Cookie"], o.args()[0]))
+						continue
+					}
+					obs[i].vals = append(obs[i].vals, append([]string(nil), c.Response.Header()[key]...))
+				}
+			}
+		})
+	}
 	l.Sep().Nat(len(k.Ops))
 	leak := false
 	for _, ob := range obs {
